@@ -70,8 +70,11 @@ class Bench:
             self.held -= 1
             if self.rx_budget is not None:
                 self.rx_budget -= 1
-        # tx side (FPGA logic -> device)
-        if self.tx_queue and (self.tx_force or self.rng2.random() < self.tx_p):
+        # tx side (FPGA logic -> device); timed beats are offered from an exact cycle on (race sweeps)
+        if self.timed and host.cycle_no >= self.timed[0][0]:
+            self.tx_queue += self.timed.pop(0)[1]
+            self.tx_force_n = len(self.tx_queue)
+        if self.tx_queue and (self.tx_force or self.tx_force_n > 0 or self.rng2.random() < self.tx_p):
             b, last = self.tx_queue[0]
             ctx.set(d.tx.valid, 1)
             ctx.set(d.tx.payload, b)
@@ -79,6 +82,7 @@ class Bench:
             if ctx.get(d.tx.ready):
                 self.tx_queue.pop(0)
                 self.tx_acc.append([b, bool(last)])
+                self.tx_force_n = max(0, self.tx_force_n - 1)
         else:
             ctx.set(d.tx.valid, 0)
 
@@ -201,6 +205,7 @@ class Bench:
         self.rx_budget = 0 if sc.get("rx_manual") else None
         self.tx_force = False
         self.tx_queue, self.tx_acc, self.rx_acc, self.trace = [], [], [], []
+        self.timed, self.tx_force_n = [], 0
         self.held, self.exp_tog = 0, 0      # harness-side estimate, used only to keep clean stimuli inside the buffer
         ctx.set(self.dut.connect, 1)
         ctx.set(self.bus.line_state, 1)
@@ -244,6 +249,23 @@ class Bench:
                 a = addr if use_addr is None else use_addr
                 rec, _ = await self.bulk_in(ctx, host, a, ack)
                 self._flush(rec)
+            elif k == "in_race":     # IN transaction; `beats` hit the tx stream exactly d cycles after the device's packet ended
+                _, ack, dly, beats = op
+                await host.token(ctx, "IN", addr, 4)
+                r = await host.wait_response(ctx, 40)
+                self.timed.append((host.cycle_no + dly, [list(b) for b in beats]))
+                resp = {"kind": "bad", "pid": 0, "payload": []}
+                if r.get("kind") == "none":
+                    resp["kind"] = "none"
+                elif r.get("kind") == "hs":
+                    resp["kind"] = r["pid"] if r["pid"] in ("NAK", "STALL") else "bad"
+                elif r.get("kind") == "data" and r.get("crc_ok") and r["pid"] in ("DATA0", "DATA1"):
+                    resp = {"kind": "data", "pid": 1 if r["pid"] == "DATA1" else 0, "payload": r["payload"]}
+                    if ack:
+                        await host.idle(ctx, 2)
+                        await host.handshake(ctx, "ACK")
+                await host.idle(ctx, 24)
+                self._flush({"e": "in", "addr": addr, "resp": resp, "host_ack": bool(ack and resp["kind"] == "data")})
             elif k == "tx":          # queue beats for the tx stream; optionally wait until they are taken
                 self.tx_queue += [list(b) for b in op[1]]
                 if op[2]:
@@ -503,6 +525,32 @@ def check_C57(rep):
                   "rx_p": rng.choice([1.0, 0.7, 0.3]), "tx_p": rng.choice([1.0, 0.6, 0.2])}
             tr = bench.run(sc)
             items[maxpkt].append((tr, {"maxpkt": maxpkt, "buf": buf, "origin": "random", "n": i}))
+
+    # 3b. race sweeps: the beat that completes the *next* packet (a `last` byte, or the MaxPkt-th byte) reaches the tx
+    #     stream at every cycle offset around the host's ACK of the current packet; likewise with a lost ACK.
+    for maxpkt in ((2, 8) if quick else (2, 8, 64)):
+        bench = benches[maxpkt]
+        shapes = [("last", 3), ("full", maxpkt)] if maxpkt > 2 else [("last", 1), ("full", 2)]
+        for shape, nb in shapes:
+            for ack in (True, False):
+                ops = []
+                val = 1
+                for dly in range(0, 15):
+                    a = [[(val + j) % 256, j == 1] for j in range(2)] if maxpkt > 2 else [[val % 256, True]]
+                    val += 7
+                    ops.append(("tx", a, True))
+                    b = [[(val + j) % 256, False] for j in range(nb)]
+                    if shape == "last":
+                        b[-1][1] = True
+                    val += 11
+                    ops.append(("tx", b[:-1], True))
+                    ops.append(("in_race", ack, dly, [b[-1]]))
+                    ops += [("in", None, True)] * 3
+                sc = {"rng": random.Random("%s-race-%d-%s-%s" % (rep.seed, maxpkt, shape, ack)), "ops": ops,
+                      "gap": 0.0, "stall": 0.0, "rx_p": 1.0, "tx_p": 1.0}
+                tr = bench.run(sc)
+                items[maxpkt].append((tr, {"maxpkt": maxpkt, "buf": 2 * maxpkt - 1,
+                                           "origin": "race-sweep/%s/ack=%s" % (shape, ack), "n": 0}))
 
     # 4. TLC decides
     for maxpkt, its in items.items():
